@@ -439,7 +439,7 @@ func c41RunCase(t *testing.T, r *verifrt.Run, w *c41World, spec c41Spec, seed in
 func TestVerif_C41(t *testing.T) {
 	r := verifrt.Start(t, "C41")
 	defer r.Finish()
-	r.Rule("case = (CRDT type of 7, 2-3 real replicatorActors, 10-40 generated steps: local update / local delete / delivery of a captured delta or tombstone to any replica in any order incl. duplicates, echoes, *crdtDelta and CRDTDeltaBatch paths / digest->full-state pull with own or empty digest / prune tick / read; tombstone TTL 1000h, or 400ms in ~4% of cases for the expiry path); monitor bit per replica set by an acknowledged local Delete or by a delivered tombstone confirmed by a round trip; while set and the harness-measured time since the first delete is < TTL: Get, digest, full state to peers and coordinated-read answers expose nothing for the key and a local update publishes no delta; non-trivial = some replica holding a tombstone was afterwards handed a local update, a delta or a full-state entry for the key and judged; distinct by script text")
+	r.Rule("case = (CRDT type of 7, 2-3 real replicatorActors, 10-40 generated steps: local update / local delete / delivery of a captured delta or tombstone to any replica in any order incl. duplicates, echoes, *crdtDelta and CRDTDeltaBatch paths / digest->full-state pull with own or empty digest / prune tick / read; tombstone TTL 1000h, or 400ms in ~4% of cases for the expiry path); monitor bit per replica set by an acknowledged local Delete or by a delivered tombstone confirmed by a round trip; while set and the harness-measured time since the first delete is < TTL: Get, digest, full state to peers and coordinated-read answers expose nothing for the key and a local update publishes no delta; non-trivial = some replica holding a tombstone was afterwards handed a local update, a delta or a full-state entry for the key and judged; distinct by script text. Plus re-delete cases (TTL 600ms): delete (T0), 270ms later delete again on the same/another replica (T1, T2), tombstones to the peers in any order with duplicates; when T0 certainly expired, prune + local update + old delta + full state on every replica; a replica's obligation lasts until (latest harness stamp taken BEFORE a delete it performed or whose tombstone it was handed) + TTL, a Get counts only if the stamp taken AFTER it is earlier than that minus 25ms; non-trivial = a replica knowing >=2 tombstones was challenged inside that window")
 	r.Assume("mailbox FIFO between the harness's Tell and its following Ask to the same replicator (the round trip confirms that the tombstone was handled)")
 	r.Assume("every tombstone's deletedAt is not earlier than the harness clock read before the first Delete was sent (same machine clock)")
 	w := c41NewWorld(t)
@@ -480,6 +480,7 @@ func TestVerif_C41(t *testing.T) {
 			r.Sample(map[string]any{"spec": spec.String(), "script": strings.Join(k.log, " ; "), "judged": k.judged})
 		}
 	}
+	c41RunRedeletes(t, r)
 	w.net.mu.Lock()
 	unknown := append([]string(nil), w.net.unknown...)
 	w.net.mu.Unlock()
